@@ -419,7 +419,9 @@ def compare(ctx, cases, impl_exe, model_out, variant):
             if i % max(1, len(cases) // 6) == 0 and variant == "asan":
                 ctx.sample({"op": line[:300], "result": a[:130]})
         else:
-            ctx.violation(cell + tag, "%s [%s]: op `%s` impl=%s model=%s" % (verdict, variant, line[:160], a[:100], b[:100]),
+            # a sanitizer abort / crash is keyed per (op, variant), not per boundary cell
+            key = "%s:%s:fault" % (line.split(" ", 1)[0], variant) if a.startswith("FAULT") else cell + tag
+            ctx.violation(key, "%s [%s]: op `%s` impl=%s model=%s" % (verdict, variant, line[:160], a[:100], b[:100]),
                           {"kind": "failing-input", "op": line, "impl": a, "expected": b, "variant": variant,
                            "stderr": impl_err[-1500:] if a.startswith("FAULT") else ""}, found_input=True)
 
